@@ -128,6 +128,11 @@ def build(emd, ep, l, D, opts):
     if ep == 'amplitude_normalise':
         a = lay(x, 'column')
         return (lambda: U.amplitude_normalise(a)), [a]
+    if ep in ('amplitude_normalise_3d', 'frequency_transform_nht_3d'):
+        a = (np.abs(np.zeros((len(x), 2, 2)) + x[:, None, None]) + .1 + np.arange(4).reshape(1, 2, 2) * .05).copy()
+        if ep == 'amplitude_normalise_3d':
+            return (lambda: U.amplitude_normalise(a)), [a]
+        return (lambda: Sp.frequency_transform(a, 128, 'nht')), [a]
     if ep in ('sift_second_layer', 'mask_sift_second_layer'):
         # six first-level columns: a 48-sample sift yields fewer IMFs than that, so no cap is needed in sift_args
         IA = np.abs(np.c_[x, x[::-1], np.roll(x, 7), np.roll(x, 13), x ** 2, np.roll(x, 21)]).copy() if ep == 'sift_second_layer' else np.abs(np.c_[x, x[::-1]]).copy()
@@ -193,7 +198,18 @@ def one_call(emd, ep, l, ro, opts, D):
     return {'outcome': 'returned', 'exc': '', 'untouched': untouched, 'digest': digest(out)}
 
 
-def replay(emd, hist, verdicts, D, ref):
+def edit_another_config(emd):
+    """a user edits the nested padding options of a configuration object of their own; no later call is given it"""
+    for variant in ('sift', 'mask_sift'):
+        c = emd.sift.get_config(variant)
+        c['extrema_opts/mag_pad_opts/stat_length'] = 3
+        c['extrema_opts']['loc_pad_opts']['reflect_type'] = 'even'
+        c['extrema_opts']['mag_pad_opts']['mode'] = 'mean'
+
+
+def replay(emd, hist, verdicts, D, ref, edited=False):
+    if edited:
+        edit_another_config(emd)
     opts = sift_opts()
     for k, (ep, l, ro, reuse) in enumerate(hist):
         if not reuse:
@@ -219,7 +235,7 @@ def replay(emd, hist, verdicts, D, ref):
 def reference(emd, D):
     ref = {}
     for ep in EPS:
-        l = 'column' if ep in ('hilberthuang_1d', 'holospectrum', 'amplitude_normalise', 'sift_second_layer', 'mask_sift_second_layer') else 'vector'
+        l = 'column' if ep in ('hilberthuang_1d', 'holospectrum', 'amplitude_normalise', 'amplitude_normalise_3d', 'frequency_transform_nht_3d', 'sift_second_layer', 'mask_sift_second_layer') else 'vector'
         r = one_call(emd, ep, l, False, sift_opts(), D)
         if r['outcome'] != 'returned':
             raise MachineryError('reference call of %s failed: %s' % (ep, r['exc']))
@@ -229,14 +245,14 @@ def reference(emd, D):
 
 EPS = ['sift_second_layer', 'mask_sift_second_layer', 'get_cycle_stat_obj', 'phase_align_obj', 'get_control_points_obj', 'sift', 'ensemble_sift', 'complete_ensemble_sift', 'mask_sift', 'get_next_imf', 'get_next_imf_mask', 'interp_envelope',
        'get_padded_extrema', 'is_imf', 'frequency_transform', 'get_cycle_vector', 'hilberthuang', 'hilberthuang_1d', 'holospectrum',
-       'get_cycle_stat', 'phase_align', 'bin_by_phase', 'amplitude_normalise']
+       'get_cycle_stat', 'phase_align', 'bin_by_phase', 'amplitude_normalise', 'amplitude_normalise_3d', 'frequency_transform_nht_3d']
 
 
 def _job(args):
     emd = core.import_emd()
     items, ref = args
     D = data()
-    return [(j, replay(emd, h, v, D, ref)) for j, h, v in items]
+    return [(j, replay(emd, h, v, D, ref, e)) for j, h, v, e in items]
 
 
 def run():
@@ -248,14 +264,14 @@ def run():
     core.write_cfg(cfg, spec='Spec', invariants=invs, constants=consts)
     res = core.run_tlc(ctx, 'Layout', cfg, name='Layout sessions of 2 calls')
     core.require_ok(res, 'Leg A Layout')
-    for dev, inv in (('{"WritesIntoInput"}', 'InputsUntouched'), ('{"ConsumesOptionDict"}', 'LayoutInsensitive')):
+    for dev, inv in (('{"WritesIntoInput"}', 'InputsUntouched'), ('{"ConsumesOptionDict"}', 'LayoutInsensitive'), ('{"SharedDefaultObjects"}', 'LayoutInsensitive')):
         core.write_cfg(cfg, spec='Spec', invariants=[inv], constants=dict(consts, Dev=dev, SameEP='TRUE'))
         core.expect_violation(ctx, 'Layout', cfg, inv, 'Layout Dev=' + dev, workers=4)
     core.write_cfg(cfg, spec='Spec', invariants=['Export'], constants=consts)
     res = core.run_tlc(ctx, 'Layout', cfg, name='Layout session export', workers=1)
     core.require_ok(res, 'Layout export')
     behs = parse_behaviours(res['out'])
-    items = [(j, [[o[0], o[1], bool(o[2]), bool(o[3])] for o in b['hist']], list(b['verdicts'])) for j, b in enumerate(behs)]
+    items = [(j, [[o[0], o[1], bool(o[2]), bool(o[3])] for o in b['hist']], list(b['verdicts']), bool(b['edited'])) for j, b in enumerate(behs)]
     emd = core.import_emd()
     ref = reference(emd, data())
     ctx.leg('A', invariants=invs, sessions=len(items), entry_points=len(EPS))
